@@ -485,6 +485,92 @@ def r2_hygiene(run):
                 run.check(ok, 'the waiter slot %s only ever holds None or a fresh future' % w, f, node)
 
 
+class _PumpCtx:
+    """The pump's view of the raw receive: where the event is pulled, the local it is bound to, where the
+    ``client_disconnected`` flag is raised, and the truth of tests on the event type."""
+
+    def __init__(self, run):
+        p = run.project
+        br = _br(run)
+        f = self.f = br.producer
+        cfg = self.cfg = cfg_of(f, p)
+        run.use_cfg(cfg)
+        self.appends = br.q_nodes(cfg, ('append', 'appendleft'))
+        recv_nodes = self.recv_nodes = [n.id for n in cfg.live_nodes() for c in n.calls() if _self_attr(c.func, br.raw_recv)]
+        if not recv_nodes:
+            raise AnchorError('%s: call of the raw receive not found' % f.qual)
+        evs = []
+        for rn in recv_nodes:
+            n = cfg.node(rn)
+            if not (n.kind == 'stmt' and isinstance(n.ast, (ast.Assign, ast.AnnAssign))):
+                raise UnknownIdiom('%s: received event not bound: %s' % (f.qual, n.text()))
+            tgt = n.ast.targets[0] if isinstance(n.ast, ast.Assign) else n.ast.target
+            if not isinstance(tgt, ast.Name):
+                raise UnknownIdiom('%s: received event bound to %s' % (f.qual, short(tgt)))
+            evs.append(tgt.id)
+        ev = self.ev = single(sorted(set(evs)), 'received-event local', f.qual)
+
+        def is_type_expr(e):
+            if isinstance(e, ast.Subscript) and isinstance(e.value, ast.Name) and e.value.id == ev and isinstance(e.slice, ast.Constant) and e.slice.value == 'type':
+                return True
+            if isinstance(e, ast.Name) and e.id != ev:
+                ds = local_defs(f, e.id)
+                return len(ds) == 1 and ds[0] is not None and is_type_expr(ds[0])
+            return False
+
+        def atom_for(evtype, flag):
+            def atom(e):
+                if isinstance(e, ast.Compare) and len(e.ops) == 1 and isinstance(e.ops[0], (ast.Eq, ast.NotEq)):
+                    l, r = e.left, e.comparators[0]
+                    if is_type_expr(r):
+                        l, r = r, l
+                    if is_type_expr(l):
+                        k = p.fold(f.module, r, None, f)
+                        if not isinstance(k, str):
+                            raise UnknownIdiom('%s: event type compared with %s' % (f.qual, short(r)))
+                        eq = evtype == k
+                        return {eq} if isinstance(e.ops[0], ast.Eq) else {not eq}
+                if _self_attr(e, FLAG) and flag is not None:
+                    return {flag}
+                return None
+            return atom
+
+        self.atom_for = atom_for
+        self.flag_sets = [n.id for n in cfg.live_nodes() if n.kind == 'stmt' and isinstance(n.ast, ast.Assign) and any(_self_attr(t, FLAG) for t in n.ast.targets)]
+        for fs in self.flag_sets:
+            v = cfg.node(fs).ast.value
+            if not (isinstance(v, ast.Constant) and v.value is True):
+                raise UnknownIdiom('%s: %s' % (f.qual, short(cfg.node(fs).ast)))
+
+
+def _pump_ctx(run) -> _PumpCtx:
+    c = getattr(run, '_c18_pump_ctx', None)
+    if c is None:
+        c = _PumpCtx(run)
+        run._c18_pump_ctx = c
+    return c
+
+
+def disconnect_flag_prompt(run):
+    """Registered under C17 (R6).  ``WebSocket._send`` and the ``closed``/``ready`` properties learn about a lost
+    client only through the receiver's ``client_disconnected`` flag, and another task runs only at a suspension
+    point: once the pump has pulled the websocket.disconnect event from the server, the flag is raised before the
+    pump suspends again (before it waits for room in the queue, in particular) or ends."""
+    ctx = _pump_ctx(run)
+    f, cfg = ctx.f, ctx.cfg
+    filt = feasible(cfg, ctx.atom_for('websocket.disconnect', None))
+    goals = set(_susp(cfg)) | {cfg.exit}
+    for rn in ctx.recv_nodes:
+        starts = [y for (y, l) in cfg.succ[rn] if l != 'exc']
+        path = flow.find_path(cfg, starts, goals, avoid_nodes=ctx.flag_sets, edge_filter=lambda a, b, l: l != 'exc' and filt(a, b, l))
+        run.check(path is None, '%s: after a websocket.disconnect event was pulled from the server, the %s flag (consulted by WebSocket._send, closed, ready) '
+                                'is raised before the next suspension point' % (f.name, FLAG), f, cfg.node(rn).ast,
+                  witness=flow.describe_path(cfg, [rn] + path) if path else None,
+                  runtime_witness='the receive queue is full when the client leaves and the responder only sends: the pump parks on the capacity wait '
+                                  'with the disconnect in hand, every later send_*() is emitted to a dead connection and no WebSocketDisconnected is raised')
+
+
+
 # ---------------------------------------------------------------------------
 # R3
 # ---------------------------------------------------------------------------
@@ -520,50 +606,8 @@ def r3_fifo_bound(run):
     # the wait in the capacity loop re-tests after waking up: the await on the put waiter is inside a loop headed by the fullness test
     # (already implied: the append is reachable from the await only through an ok-edge)
     # disconnect handling
-    recv_nodes = [n.id for n in cfg.live_nodes() for c in n.calls() if _self_attr(c.func, br.raw_recv)]
-    if not recv_nodes:
-        raise AnchorError('%s: call of the raw receive not found' % f.qual)
-    evs = []
-    for rn in recv_nodes:
-        n = cfg.node(rn)
-        if not (n.kind == 'stmt' and isinstance(n.ast, (ast.Assign, ast.AnnAssign))):
-            raise UnknownIdiom('%s: received event not bound: %s' % (f.qual, n.text()))
-        tgt = n.ast.targets[0] if isinstance(n.ast, ast.Assign) else n.ast.target
-        if not isinstance(tgt, ast.Name):
-            raise UnknownIdiom('%s: received event bound to %s' % (f.qual, short(tgt)))
-        evs.append(tgt.id)
-    ev = single(sorted(set(evs)), 'received-event local', f.qual)
-
-    def is_type_expr(e):
-        if isinstance(e, ast.Subscript) and isinstance(e.value, ast.Name) and e.value.id == ev and isinstance(e.slice, ast.Constant) and e.slice.value == 'type':
-            return True
-        if isinstance(e, ast.Name) and e.id != ev:
-            ds = local_defs(f, e.id)
-            return len(ds) == 1 and ds[0] is not None and is_type_expr(ds[0])
-        return False
-
-    def atom_for(evtype, flag):
-        def atom(e):
-            if isinstance(e, ast.Compare) and len(e.ops) == 1 and isinstance(e.ops[0], (ast.Eq, ast.NotEq)):
-                l, r = e.left, e.comparators[0]
-                if is_type_expr(r):
-                    l, r = r, l
-                if is_type_expr(l):
-                    k = p.fold(f.module, r, None, f)
-                    if not isinstance(k, str):
-                        raise UnknownIdiom('%s: event type compared with %s' % (f.qual, short(r)))
-                    eq = evtype == k
-                    return {eq} if isinstance(e.ops[0], ast.Eq) else {not eq}
-            if _self_attr(e, FLAG) and flag is not None:
-                return {flag}
-            return None
-        return atom
-
-    flag_sets = [n.id for n in cfg.live_nodes() if n.kind == 'stmt' and isinstance(n.ast, ast.Assign) and any(_self_attr(t, FLAG) for t in n.ast.targets)]
-    for fs in flag_sets:
-        v = cfg.node(fs).ast.value
-        if not (isinstance(v, ast.Constant) and v.value is True):
-            raise UnknownIdiom('%s: %s' % (f.qual, short(cfg.node(fs).ast)))
+    ctx = _pump_ctx(run)
+    recv_nodes, flag_sets, atom_for = ctx.recv_nodes, ctx.flag_sets, ctx.atom_for
     for rn in recv_nodes:
         starts = [y for (y, l) in cfg.succ[rn] if l != 'exc']
         # disconnect event: flag set, then enqueued through the gate, then the pump stops pulling
@@ -720,6 +764,97 @@ def r4_lifecycle(run):
     run.extra['c18_unbuffered_bypass'] = True
 
 
+# ---------------------------------------------------------------------------
+# R6
+# ---------------------------------------------------------------------------
+
+def r6_end_of_stream(run):
+    """``receive()`` may return without handing out a queued message (the synthesised "pump ended" disconnect)
+    only when the queue is provably empty at that point.
+
+    Lemma: the waiter was registered in the same await-free section in which the queue was seen empty (R1a), every
+    append notifies a registered waiter before the pump suspends (R1b), and after the wait no other task runs until
+    the next suspension point.  So, inside the await-free section that follows a wait, either of
+      * the registered future is not done (nobody notified => nothing was appended while waiting), or
+      * an explicit emptiness test of the queue
+    establishes "no message is buffered".  The completion of the pump task establishes nothing: the pump may have
+    enqueued messages, woken the waiter, pulled the disconnect and returned in one step."""
+    p = run.project
+    br = _br(run)
+    f = br.consumer
+    cfg = cfg_of(f, p)
+    run.use_cfg(cfg)
+    br.check_queue_tests(f, cfg)
+    pops = br.q_nodes(cfg, ('pop', 'popleft'))
+    if not pops:
+        raise AnchorError('%s: removal from the queue not found' % f.qual)
+    regs = br.reg_nodes(f, cfg, br.pop_waiter)
+    if not regs:
+        raise AnchorError('%s: registration of %s not found' % (f.qual, br.pop_waiter))
+    wl: Set[str] = set()          # locals holding the registered future
+    for r in regs:
+        v = strip_await(cfg.node(r).ast.value)
+        if isinstance(v, ast.Name):
+            wl.add(v.id)
+
+    def notified(e) -> Optional[bool]:
+        """polarity True: 'the registered future is done' (the pump announced a message)"""
+        if isinstance(e, ast.Call) and isinstance(e.func, ast.Attribute) and e.func.attr == 'done' and not e.args and not e.keywords \
+                and isinstance(e.func.value, ast.Name) and e.func.value.id in wl:
+            return True
+        return None
+
+    empty_edges = br.edges_implying(cfg, br.nonempty, False) + br.edges_implying(cfg, notified, False)
+    susp = _susp(cfg)
+    # results of the wait bound to locals (done/pending sets): tests on them are an idiom this rule does not know
+    wait_locals: Set[str] = set()
+    for sn in susp:
+        a = cfg.node(sn).ast
+        if cfg.node(sn).kind == 'stmt' and isinstance(a, (ast.Assign, ast.AnnAssign)):
+            for t in (a.targets if isinstance(a, ast.Assign) else [a.target]):
+                wait_locals.update(x.id for x in ast.walk(t) if isinstance(x, ast.Name))
+
+    def unknown_test(nid) -> Optional[str]:
+        n = cfg.node(nid)
+        cond = n.ast if n.kind == 'test' else (n.ast.test if n.kind == 'stmt' and isinstance(n.ast, ast.Assert) else None)
+        if cond is None:
+            return None
+        names = {x.id for x in walk_self(cond) if isinstance(x, ast.Name)}
+        # one level of single-assignment locals (e.g. notified = waiter.done())
+        for nm in sorted(names):
+            if nm not in f.params():
+                for d in local_defs(f, nm):
+                    if d is not None:
+                        names |= {x.id for x in walk_self(d) if isinstance(x, ast.Name)}
+        if names & wait_locals:
+            return short(cond)
+        if names & wl:
+            recognised = {id(x.func.value) for x in walk_self(cond) if isinstance(x, ast.Call) and notified(x)}
+            stray = [x for x in walk_self(cond) if isinstance(x, ast.Name) and x.id in wl and id(x) not in recognised]
+            indirect = not any(isinstance(x, ast.Name) and x.id in wl for x in walk_self(cond))
+            if stray or indirect:
+                return short(cond)
+        return None
+
+    sections = [(None, [cfg.entry])] + [(sn, [y for (y, _l) in cfg.succ[sn]]) for sn in susp]
+    for sn, starts in sections:
+        path = flow.find_path(cfg, starts, [cfg.exit], avoid_nodes=set(pops) | set(susp), avoid_edges=empty_edges)
+        if path is not None:
+            for nid in path:
+                u = unknown_test(nid)
+                if u is not None:
+                    raise UnknownIdiom('%s: the test %s on the outcome of the wait is of a form this rule does not know' % (f.qual, u))
+        head = cfg.node(sn).ast if sn is not None else None
+        run.check(path is None,
+                  '%s: %s, a return that hands out no queued message is taken only after a test showing that the waiter was not notified '
+                  'or that the queue is empty (never on the completion of the pump task alone)' % (
+                      f.name, 'after the wait' if sn is not None else 'on entry'),
+                  f, head if head is not None else '%s entry' % f.name,
+                  witness=flow.describe_path(cfg, ([sn] if sn is not None else []) + path) if path else None,
+                  runtime_witness='the pump enqueues message(s), wakes the waiter, pulls the disconnect and returns before the receiving task runs: '
+                                  'receive() reports the disconnect while messages are still buffered - they are lost')
+
+
 def _positive(e, is_cap) -> Optional[bool]:
     if is_cap(e):
         return True
@@ -751,3 +886,11 @@ def check(run):
     run.rule('R2', r2_hygiene, 'waiter registrations cleared on every exit; notification clears the slot', floor=6)
     run.rule('R3', r3_fifo_bound, 'FIFO polarity, capacity gate, disconnect through the same gate', floor=7)
     run.rule('R4', r4_lifecycle, 'close->stop first, stop cancels/awaits/clears, start idempotent and skipped for 0, bypass for 0', floor=12)
+    from . import c17 as _c17  # lazy: c17 imports this module (its R6 lives here)
+    run.extra['c18_not_decided'] = [
+        'a *custom* WebSocket error handler (user code) that does not close the socket: _handle_websocket has no fallback close, '
+        'so the pump task keeps running (R5 covers the framework\'s own paths and default handlers only)',
+    ]
+    run.rule('R5', _c17.r3_session_paths, 'every framework path that ends a session passes a completed ws.close() - the only caller of the '
+                                         'pump\'s stop() - whatever closed/ready say (shared with C17 R3)', floor=12)
+    run.rule('R6', r6_end_of_stream, 'receive() concludes "no more messages" only when the waiter was not notified or the queue is empty', floor=2)
